@@ -1,5 +1,149 @@
-(* C42 placeholder while the tie is being set up; replaced by the real theorems *)
-From V Require Import Model.EstimatorRun.
-Theorem C42_placeholder_partial : True. Proof. exact I. Qed.
-Example C42_nonvacuous : True. Proof. exact I. Qed.
-Print Assumptions C42_placeholder_partial.
+(* C42  The multi-clock estimator keeps unrelated estimates intact.
+   Property theorems only; proofs are in Proofs/Estimator.v.  Model: Model/Estimator.v
+   (EstimatorState of statime-algo/src/estimator.rs with the Matrix of matrix.rs),
+   generic in the element type A and its arithmetic F (the theorems hold for every
+   arithmetic, in particular for binary64 with all its NaN/rounding behaviour).
+
+   A history is a list of operations (progress_time, the three absorb operations,
+   measurement, add/remove of clocks, external clocks and links) applied to the
+   empty estimator the way every user in lib.rs applies them: on a clone, keeping
+   the old state when the operation fails ([apply_keep], [run_ops]). *)
+From V Require Import Model.Estimator Proofs.Estimator.
+
+(* Invariant: after every history the state vector is n x 1, the covariance n x n,
+   identifiers are unique, and the index blocks (2 rows per clock, 1 per link) lie
+   in 0..n, are pairwise disjoint and their sizes add up to n (a partition of 0..n). *)
+Theorem C42_invariant : forall (A : Type) (F : Ops A) t (ops : list (@op A)),
+  WF (run_ops F ops (empty F t)).
+Proof. exact @WF_reachable. Qed.
+
+(* Adding or removing a clock, an external clock or a link after any history leaves
+   the reported offset and frequency (value and uncertainty) of every OTHER clock and
+   the reported delay of every OTHER link exactly as they were (the same results of
+   the queries, including "unknown" for identifiers that are not present). *)
+Theorem C42_unrelated_kept : forall (A : Type) (F : Ops A) t (ops : list (@op A)) (o : @op A) st',
+  apply F o (run_ops F ops (empty F t)) = Ok st' ->
+  unrelated_kept F o (run_ops F ops (empty F t)) st'.
+Proof. exact @history_unrelated_kept. Qed.
+
+(* the same, per operation, for any well-formed state, with what the operation does to
+   its own identifier, the time and the external clocks *)
+Theorem C42_add_clock_preserves : forall (A : Type) (F : Ops A) st id ov ou fv fu w st',
+  WF st -> add_clock F id ov ou fv fu w st = Ok st' ->
+  same_estimates_except_clock F st st' id /\ e_time st' = e_time st /\ e_ext st' = e_ext st /\
+  clock_offset F st' id = Ok (ov, fsqrt F (sq F ou)) /\
+  clock_frequency F st' id = Ok (fv, fsqrt F (sq F fu)).
+Proof. exact @add_clock_preserves. Qed.
+
+Theorem C42_remove_clock_preserves : forall (A : Type) (F : Ops A) st id st',
+  WF st -> remove_clock F id st = Ok st' ->
+  same_estimates_except_clock F st st' id /\ e_time st' = e_time st /\ e_ext st' = e_ext st /\
+  clock_offset F st' id = Err E_UnknownClock /\ clock_frequency F st' id = Err E_UnknownClock.
+Proof. exact @remove_clock_preserves. Qed.
+
+Theorem C42_add_link_preserves : forall (A : Type) (F : Ops A) st id dv du dc st',
+  WF st -> add_link F id dv du dc st = Ok st' ->
+  same_estimates_except_link F st st' id /\ e_time st' = e_time st /\ e_ext st' = e_ext st /\
+  link_delay F st' id = Ok (dv, fsqrt F (sq F du)).
+Proof. exact @add_link_preserves. Qed.
+
+Theorem C42_remove_link_preserves : forall (A : Type) (F : Ops A) st id st',
+  WF st -> remove_link F id st = Ok st' ->
+  same_estimates_except_link F st st' id /\ e_time st' = e_time st /\ e_ext st' = e_ext st /\
+  link_delay F st' id = Err E_UnknownLink.
+Proof. exact @remove_link_preserves. Qed.
+
+Theorem C42_external_preserves : forall (A : Type) (F : Ops A) (st : @est A) id st',
+  add_external_clock id st = Ok st' \/ remove_external_clock id st = Ok st' ->
+  same_estimates F st st' /\ e_time st' = e_time st /\ e_state st' = e_state st /\ e_unc st' = e_unc st.
+Proof.
+  intros A F st id st' [H|H];
+    [exact (add_external_preserves F st id st' H)|exact (remove_external_preserves F st id st' H)].
+Qed.
+
+(* Exactly which additions/removals succeed. *)
+Theorem C42_success_conditions : forall (A : Type) (F : Ops A) (st : @est A), WF st ->
+  (forall id ov ou fv fu w, (exists st', add_clock F id ov ou fv fu w st = Ok st') <-> is_known_clock st id = false) /\
+  (forall id, (exists st', add_external_clock id st = Ok st') <-> is_known_clock st id = false) /\
+  (forall id, (exists st', remove_clock F id st = Ok st') <-> is_internal_clock st id = true) /\
+  (forall id, (exists st', remove_external_clock id st = Ok st') <-> is_external_clock st id = true) /\
+  (forall id dv du dc, (exists st', add_link F id dv du dc st = Ok st') <->
+     (is_known_clock st (link_first id) = true /\ is_known_clock st (link_second id) = true /\
+      existsb (fun l => linkid_eqb (li_id l) id) (e_links st) = false)) /\
+  (forall id, (exists st', remove_link F id st = Ok st') <->
+     existsb (fun l => linkid_eqb (li_id l) id) (e_links st) = true).
+Proof.
+  intros A F st W. split; [|split; [|split; [|split; [|split]]]]; intros.
+  - apply add_clock_ok_iff; auto.
+  - apply add_external_ok_iff.
+  - apply remove_clock_ok_iff; auto.
+  - apply remove_external_ok_iff.
+  - apply add_link_ok_iff; auto.
+  - apply remove_link_ok_iff; auto.
+Qed.
+
+(* An operation that names an unknown identifier (clock, external clock, link) or adds a
+   duplicate one fails with an error after any history, and the estimator handle keeps
+   exactly the state it had (clone-then-replace). *)
+Theorem C42_errors_leave_state : forall (A : Type) (F : Ops A) t (ops : list (@op A)) (o : @op A),
+  let st := run_ops F ops (empty F t) in
+  bad_ident o st = true -> (exists e, apply F o st = Err e) /\ apply_keep F o st = st.
+Proof. exact @history_bad_ident_refused. Qed.
+
+(* ... and so does every operation that fails for any other reason. *)
+Theorem C42_failed_keeps_state : forall (A : Type) (F : Ops A) (o : @op A) (st : @est A),
+  (forall st', apply F o st <> Ok st') -> apply_keep F o st = st.
+Proof. exact @apply_keep_failed. Qed.
+
+(* Time: after any history, progress_time to an earlier time (wrapping 128-bit difference
+   negative) fails and leaves the state, to a later or equal time it succeeds and sets
+   exactly that time; every other operation keeps the time, except the absorption of a
+   step of the system clock, which shifts the time scale by that step (by design). *)
+Theorem C42_time_monotone : forall (A : Type) (F : Ops A) t (ops : list (@op A)) (o : @op A),
+  let st := run_ops F ops (empty F t) in
+  match o with
+  | OpProgress new =>
+      (ts_sub new (e_time st) < 0 -> apply F o st = Err E_NonMonotonic /\ apply_keep F o st = st) /\
+      (0 <= ts_sub new (e_time st) -> exists st', apply F o st = Ok st' /\ e_time st' = new)
+  | OpAbsorbSystem _ d => forall st', apply F o st = Ok st' -> e_time st' = ts_add (e_time st) d
+  | _ => forall st', apply F o st = Ok st' -> e_time st' = e_time st
+  end.
+Proof. exact @history_time. Qed.
+
+(* the wrapping difference is the ordinary one for timestamps below 2^127 (2^63 s) *)
+Theorem C42_time_difference : forall a b,
+  0 <= a < 2 ^ 127 -> 0 <= b < 2 ^ 127 -> ts_sub a b = a - b.
+Proof. exact ts_sub_small. Qed.
+
+(* non-vacuity: a history with two clocks, an external clock and a link; removing the first
+   clock moves the second clock's rows from 2,3 to 0,1 and the link's row from 4 to 2, and
+   the reports of the second clock and of the link are unchanged *)
+Example C42_nonvacuous :
+  let h := [OpAddClock 10 100 3 101 4 1; OpAddExternal 30; OpAddClock 20 200 5 201 6 1;
+            OpAddLink (20, 30, 0) 300 7 1] in
+  let st := run_ops z_ops h (empty z_ops 1000) in
+  map (@ci_base Z) (e_clocks st) = [0%nat; 2%nat] /\ map (@li_index Z) (e_links st) = [4%nat] /\
+  clock_frequency z_ops st 20 = Ok (201, 6) /\ link_delay z_ops st (20, 30, 0) = Ok (300, 7) /\
+  match apply z_ops (OpRemoveClock 10) st with
+  | Ok st' => map (@ci_base Z) (e_clocks st') = [0%nat] /\ map (@li_index Z) (e_links st') = [2%nat] /\
+              clock_frequency z_ops st' 20 = Ok (201, 6) /\ link_delay z_ops st' (20, 30, 0) = Ok (300, 7) /\
+              clock_offset z_ops st' 10 = Err E_UnknownClock
+  | _ => False
+  end /\
+  bad_ident (OpAddClock 30 0 0 0 0 0) st = true /\ bad_ident (OpRemoveLink (20, 30, 1)) st = true /\
+  apply z_ops (OpProgress 999) st = Err E_NonMonotonic /\
+  (exists st', apply z_ops (OpProgress 1001) st = Ok st' /\ e_time st' = 1001).
+Proof. vm_compute. repeat split. eexists. split; reflexivity. Qed.
+
+Print Assumptions C42_invariant.
+Print Assumptions C42_unrelated_kept.
+Print Assumptions C42_add_clock_preserves.
+Print Assumptions C42_remove_clock_preserves.
+Print Assumptions C42_add_link_preserves.
+Print Assumptions C42_remove_link_preserves.
+Print Assumptions C42_external_preserves.
+Print Assumptions C42_success_conditions.
+Print Assumptions C42_errors_leave_state.
+Print Assumptions C42_failed_keeps_state.
+Print Assumptions C42_time_monotone.
+Print Assumptions C42_time_difference.
